@@ -30,7 +30,7 @@ ASSUMPTIONS = [
 CASE_TIMEOUT = 900
 MAX_JOBS = 16
 
-VARIANTS = ["databook", "transfer", "interaction", "spend", "unitcost", "outcome_interaction", "interaction_outcome_fullcov", "zero", "none"]
+VARIANTS = ["databook", "databook_years", "databook_const_and_years", "transfer", "interaction", "spend", "unitcost", "outcome_interaction", "interaction_outcome_fullcov", "zero", "none"]
 
 
 def make_world(variant):
@@ -52,7 +52,9 @@ def make_world(variant):
         spec["progs"]["instr"]["coverage"] = {"P1": 4.0, "P2": 4.0}  # per year; one-off programs: x dt = 1.0 per step
     for p in spec["pars"]:
         if p["name"] == "vr":
-            p["sigma"] = {"databook": 0.05, "zero": 0.0}.get(variant)
+            p["sigma"] = {"databook": 0.05, "zero": 0.0, "databook_years": 0.05, "databook_const_and_years": 0.05}.get(variant)
+            if variant in ("databook_years", "databook_const_and_years"):
+                p["val"] = {"t": [2000.0, 2002.0], "v": [0.3, 0.2]}  # the only uncertain row has year-specific values
     if variant == "spend":
         spec["progs"]["progs"][0]["spend_sigma"] = 100.0
     if variant == "unitcost":
@@ -63,6 +65,13 @@ def make_world(variant):
     if variant == "zero":
         spec["progs"]["covouts"][0]["imp"] = "P1+P2=0.95"  # valid program book with explicit interaction outcomes and zero uncertainty
     w = World(spec)
+    if variant == "databook_const_and_years":
+        # ... and a constant as well (a valid row: the year values are used, the constant is shown as ignored)
+        for obj in (w.parset.pars["vr"], ):
+            for ts in obj.ts.values():
+                ts.assumption = 0.25
+        for ts in w.D.tdve["vr"].ts.values():
+            ts.assumption = 0.25
     if variant == "none":
         for cv in w.progset.covouts.values():
             cv.sigma = None
@@ -112,6 +121,10 @@ def cases(tier):
                         if tier == "quick" and entry == "ensemble" and (N > 4 or prior == "seed1"):
                             continue
                         yield dict(kind="virtual", variant=variant, entry=entry, prior=prior, N=N, W=W)
+    for entry in ("project", "ensemble"):
+        for N in (2, 3, 4):
+            for W in (0, 1, 2, 3):
+                yield dict(kind="retry", variant=VARIANTS[0], entry=entry, prior="seed0", N=N, W=W, dev=1 if tier == "quick" else 2)
     yield dict(kind="real", N=4, W=4)
     yield dict(kind="real", N=8, W=2)
     yield dict(kind="fork")
@@ -170,6 +183,72 @@ def run_virtual(case):
     return dict(states=nexec, transitions=nsims, traces=nexec, nontrivial=(W >= 2), violations=vs[:3], outcome=sorted(patterns)[0] if patterns else None, counters=dict(schedules=nexec, sampled_sims=nsims))
 
 
+class fail_initialisation:
+    """environment answer under the explorer's control: the k-th simulation attempt of the execution (k in `which`) is refused with BadInitialization,
+    as happens when a draw implies negative compartments; the library then draws again for that sample"""
+
+    def __init__(self, which):
+        self.which = set(which)
+        self.k = 0
+
+    def __enter__(self):
+        import atomica.project as ap
+        from atomica.model import BadInitialization
+
+        self.ap = ap
+        self.orig = ap.Project.run_sim
+        outer = self
+
+        def run_sim(proj, *a, **kw):
+            k = outer.k
+            outer.k += 1
+            if k in outer.which:
+                raise BadInitialization(f"injected refusal of attempt {k}")
+            return outer.orig(proj, *a, **kw)
+
+        ap.Project.run_sim = run_sim
+        return self
+
+    def __exit__(self, *a):
+        self.ap.Project.run_sim = self.orig
+        return False
+
+
+def run_retry(case):
+    """every placement of <= `dev` refused attempts (deviations from the default answer 'accepted') x every schedule"""
+    variant, entry, N, W = case["variant"], case["entry"], case["N"], case["W"]
+    w = make_world(variant)
+    vs = []
+    h0 = (snap_hash(w.parset), snap_hash(w.progset), snap_hash(w.instr))
+    scheds = [None] if W == 0 else list(schedules(N, W))
+    faults = [()] + [(k,) for k in range(N)]
+    if case["dev"] >= 2:
+        faults += [(k, k2) for k in range(N + 1) for k2 in range(k + 1, N + 2)]
+    nexec = nsims = 0
+    for sched in scheds:
+        for fault in faults:
+            set_prior(case["prior"])
+            with fail_initialisation(fault) as inj:
+                ds = one_execution(w, entry, N, W, sched)
+            nexec += 1
+            nsims += inj.k
+            lab = f"{variant} {entry} N={N} " + ("serial" if W == 0 else f"W={W} schedule={list(sched)}") + f" prior={case['prior']} refused attempts {list(fault)}"
+            if inj.k != N + len(fault):
+                vs.append(V("retry-count", f"{lab}: {inj.k} simulation attempts for {N} samples and {len(fault)} refusals", None))
+            if len(ds) != N:
+                vs.append(V("wrong-number-of-samples", f"{lab}: {len(ds)} samples returned", None))
+            if len(set(ds)) < len(ds):
+                dup = [i for i, d in enumerate(ds) if ds.index(d) != i]
+                vs.append(V("duplicate-samples-after-retry", f"{lab}: samples {[(ds.index(ds[i]), i) for i in dup]} are identical", dict(schedule=sched and list(sched), fault=list(fault))))
+            if (snap_hash(w.parset), snap_hash(w.progset), snap_hash(w.instr)) != h0:
+                vs.append(V("sampling-altered-source", f"{lab}: the source parameter set / program set / instructions changed", None))
+            if len(vs) >= 3:
+                break
+        if len(vs) >= 3:
+            break
+    return dict(states=nexec, transitions=nsims, traces=nexec, nontrivial=True, violations=vs[:3], counters=dict(schedules_x_refusal_placements=nexec, sampled_sims=nsims))
+
+
 def run_real(case):
     """one real multiprocessing run: the equality pattern predicted by the virtual pool for SOME schedule must be the observed one (all-distinct in both or in neither)"""
     N, W = case["N"], case["W"]
@@ -218,4 +297,4 @@ def run_fork(case):
 
 
 def run_case(case):
-    return dict(virtual=run_virtual, real=run_real, fork=run_fork)[case["kind"]](case)
+    return dict(virtual=run_virtual, retry=run_retry, real=run_real, fork=run_fork)[case["kind"]](case)
